@@ -21,7 +21,9 @@ func TestMain(m *testing.M) {
 	stats.Describe("exploration",
 		"TestTrimModel: rapid state machine over a real BasicConnMgr in a synctest bubble (virtual clock) with fake connections that record "+
 			"CloseWithError; operations = Connected/Disconnected (several conns per peer, duplicates, unknown conns), TagPeer/UntagPeer/UpsertTag "+
-			"(negative values), decaying tags (register/bump/remove/close), Protect/Unprotect with several tags, clock advances across grace/"+
+			"(negative values; one TagPeer value in four, one upsert function in seven and one bump delta in eight come from the WHOLE int range: "+
+			"around MaxInt, MinInt, +-MaxInt/2, +-2^62 or any int, a TagPeer value being moved into the room the peer's other tags leave so that its total "+
+			"stays an int; peers whose totals are further apart than MaxInt are ranked by the plain numeric order of the totals), decaying tags (register/bump/remove/close), Protect/Unprotect with several tags, clock advances across grace/"+
 			"silence/decay periods (split at every ticker instant so that background trims are observed one by one), TrimOpenConns, ForceTrim, "+
 			"late delivery of Disconnected for trimmed conns, and OVERLAPPED tag operations: an UpsertTag whose callback (harness code) starts a second "+
 			"operation on the same peer on another goroutine (TagPeer/UntagPeer/UpsertTag mostly of the same tag, a decaying bump, Connected, "+
@@ -30,7 +32,10 @@ func TestMain(m *testing.M) {
 			"its total the sum of its tags), an overlapping trim must be right for the peer's value before or after the upsert; "+
 			"after every step the manager is compared with a reference model and every batch of "+
 			"closes is judged against the statement. TestTrimEnumerated: every multiset of up to 3 (4 thorough) peers over value x conns x "+
-			"protected x in-grace, times low watermark, times {TrimOpenConns, background, ForceTrim}, judged by the same oracle. TestConcurrent: "+
+			"protected x in-grace, times low watermark, times {TrimOpenConns, background, ForceTrim}, judged by the same oracle. TestTrimEnumeratedWide: "+
+			"every multiset of up to 3 out-of-grace one-connection peers over total in {MinInt, -MaxInt/2-2, -1, 0, 1, MaxInt/2+1, MaxInt} x protected, "+
+			"times low watermark 1..2, times the three kinds of trim, same oracle (non-trivial there = the trim closed one and kept the other of two "+
+			"eligible peers whose totals are further apart than MaxInt). TestConcurrent: "+
 			"the same operations from several goroutines with an interval-relaxed oracle, including increments of the shared tag whose callback "+
 			"starts a second operation of the same goroutine on the same peer (increment, own tag, bump, connect, disconnect, trims) and yields. "+
 			"NON-TRIVIAL = some trim closed >= 1 connection while >= 1 protected or in-grace peer with open connections existed (concurrent test: "+
@@ -40,6 +45,7 @@ func TestMain(m *testing.M) {
 		"ForceTrim is the memory-emergency trim; it documents that it ignores the grace period, so only the protected-peers rule, the ordering rule, the low-watermark no-op and the eligible-peers bound are asserted for it",
 		"which of several equal-valued peers is closed is not asserted (ties free); closing more peers than necessary is not asserted against",
 		"watermarks >= 1 (0 disables trimming by documentation)",
+		"a peer whose tag values (ints) sum to a number outside the int range has no total the manager could report; such sums only arise from upserts/bumps on top of wide values (label wide:peer-total-does-not-fit-int-at-trim), Value is then compared modulo 2^64 like Go's int sum and the peer's rank in a trim is not judged",
 		"decay schedule modelled from the documented semantics: the decayer ticks every Resolution (from the manager's creation); a tag is decayed once per effective Interval (DecayingTag.Interval()), first one Interval after the decayer tick at or before its registration; only intervals that are multiples of the resolution (or shorter than it) are generated",
 		"synctest virtual time; benbjohnson/clock.New() follows it",
 		"overlapped operations: the window is the upsert callback; the second operation gets a bounded number of scheduler yields (not time: a goroutine waiting for a mutex keeps a synctest bubble busy) to run inside it. A manager that holds the peer's lock across the callback serialises the two (label overlap:second-waited-for-the-upsert); both serial orders are accepted",
@@ -133,7 +139,8 @@ func (w *world) step(rt *rapid.T) {
 			w.disconnected(pick(rt, "conn", un))
 		}
 	case "tag":
-		w.tagPeer(rapid.IntRange(0, np-1).Draw(rt, "peer"), pick(rt, "tag", staticTags), rapid.IntRange(-5, 12).Draw(rt, "val"))
+		pi, tag := rapid.IntRange(0, np-1).Draw(rt, "peer"), pick(rt, "tag", staticTags)
+		w.tagPeer(pi, tag, w.drawVal(rt, w.peers[pi], tag, -5, 12))
 	case "untag":
 		w.untagPeer(rapid.IntRange(0, np-1).Draw(rt, "peer"), pick(rt, "tag", staticTags))
 	case "upsert":
@@ -194,7 +201,13 @@ func (w *world) step(rt *rapid.T) {
 		if len(lt) == 0 {
 			rt.Skip("no decaying tag")
 		}
-		w.bump(pick(rt, "dtag", lt), rapid.IntRange(0, np-1).Draw(rt, "peer"), rapid.IntRange(-3, 10).Draw(rt, "delta"))
+		d, pi := pick(rt, "dtag", lt), rapid.IntRange(0, np-1).Draw(rt, "peer")
+		delta := rapid.IntRange(-3, 10).Draw(rt, "delta")
+		if rapid.IntRange(0, 7).Draw(rt, "wideDelta") == 0 {
+			delta = drawWide(rt)
+			w.labels["wide:bump-delta"] = true
+		}
+		w.bump(d, pi, delta)
 	case "dremove":
 		lt := w.liveTags()
 		if len(lt) == 0 {
